@@ -138,6 +138,8 @@ def _canon(e):
     if e[0] == "var":
         return ("var", e[1])
     if e[0] == "param":
+        if e[2] == "self":
+            return ("var", "self")          # `self` reads the same whether K3 renders the receiver as a parameter (with a version) or as a variable
         return ("param", 3, e[2]) if e[2] == "action" else e
     return tuple(_canon(x) if isinstance(x, tuple) else x for x in e)
 
